@@ -36,6 +36,11 @@ def extensions(rng, scn):
                             "components": [dev("xi", cb={"kind": "period", "p": P}), dev("xj", {"i": ["xi", "o"]}), dev("xq")]})
     out.append(("sibling-system", e))
     e = copy.deepcopy(scn)
+    xc = dev("xc", cb={"kind": "period", "p": P})
+    xc["beh"]["outs"] = [{"port": "o", "kind": "const", "v": 7}]
+    e["components"].append({"name": "xsysc", "kind": "sys", "inputs": {}, "expose": {"y": ["xc", "o"]}, "components": [xc]})
+    out.append(("sibling-system-constant-exposed-output", e))
+    e = copy.deepcopy(scn)
     e["components"].append({"name": "xo", "kind": "sys", "inputs": {}, "expose": {}, "components": [
         {"name": "xin", "kind": "sys", "inputs": {}, "expose": {}, "components": [dev("xdeep", cb={"kind": "period", "p": 2 * P})]}]})
     out.append(("nested-system", e))
@@ -69,7 +74,12 @@ def bases(rng, tier):
                           "components": [dev("in1", {"i": ["external", "x"]}), dev("in2", cb={"kind": "period", "p": 2 * P})]},
                          dev("sink", {"i": ["sys", "y"]})], "n_ticks": 6}
     b2["components"][2]["beh"]["epics"] = True
-    out = [b1, b2]
+    # a system whose exposed output stops changing after the first tick (its `expose` is then skipped)
+    cst = dev("k", cb={"kind": "period", "p": P})
+    cst["beh"]["outs"] = [{"port": "o", "kind": "const", "v": 3}]
+    b3 = {"components": [{"name": "ksys", "kind": "sys", "inputs": {}, "expose": {"y": ["k", "o"]}, "components": [cst]},
+                         dev("ksink", {"i": ["ksys", "y"]})], "n_ticks": 6}
+    out = [b1, b2, b3]
     for _ in range(3 if tier == "quick" else 30):
         s = S.gen_nested(rng, depth=2, max_n=5)
         s["n_ticks"] = 5
